@@ -36,6 +36,14 @@ def FLOORS(tier):
         f["reduction:" + fo] = 15 if q else 600
     return f
 
+_FLOORS_BEFORE_ROUND9 = FLOORS
+
+
+def FLOORS(tier):      # noqa: F811 -- floors of the input classes added in round 9 (a quarter of what seed 0 observes in the quick tier)
+    f = _FLOORS_BEFORE_ROUND9(tier)
+    f.update({'product-with-symbol:imul': 12, 'product-with-symbol:rmul': 20, 'second-round:original:add-constraint': 30, 'second-round:original:update-with-constrained-model': 40, 'second-round:result:add-constraint': 31, 'second-round:result:update-with-constrained-model': 35})
+    return f
+
 
 def has_symbol(m):
     return sum(1 for v in m.values() if hasattr(v, "free_symbols") and v.free_symbols)
